@@ -225,8 +225,13 @@ def canonicalise_fields(raw, vocab_fields, strip_lt, log=None):
         refn = [n for n, _ in ref]
         curn = [n for n, _ in cur]
         m = {}
+        if [ty for _, ty in cur] == [ty for _, ty in ref]:
+            # same types in the same order: a pure rename, resolved by position
+            for (n, _), (rn, _) in zip(cur, ref):
+                if n != rn and n not in refn and rn not in curn:
+                    m[n] = rn
         for n, ty in cur:
-            if n in refn:
+            if n in refn or n in m:
                 continue
             lost = [rn for rn, rty in ref if rty == ty and rn not in curn]
             new_same = [cn for cn, cty in cur if cty == ty and cn not in refn]
